@@ -1,6 +1,6 @@
 (* Props/C03.v -- Total loss is the sum of its terms; dynamic term is the batch-mean residual MSE. *)
 From Coq Require Import List Arith Bool Lia Permutation QArith Qcanon.
-From JV Require Import Kit.Field Model.M_lossterms Proofs.P_lossterms.
+From JV Require Import Kit.Field Kit.Tx Model.M_lossterms Proofs.P_lossterms Proofs.P_reduce Inst.I_reduce.
 Import ListNotations.
 Open Scope nat_scope.
 
@@ -37,6 +37,26 @@ Theorem C03_average_of_halves w b1 b2 : length b1 = length b2 -> (0 < length b1)
 Proof. exact (mse_halves F Hchar w b1 b2). Qed.
 End C03.
 
+(* ---- Regenerated: what the source says today ----
+   dynamic_loss_apply: the reduction expression of both branches (pointwise and separable networks),
+   translated to a tensor expression, denotes the model's dynamic term for every batch, component
+   count and weight shape (scalar or per component); the parameters are passed last to the equation;
+   the three evaluate methods return total = the sum of exactly the returned terms, an unconfigured
+   part being the constant 0. *)
+Lemma regenerated_dyn_reduce_ok (F : fld) (w : weight F) (res : list (list F)) :
+  tsem F [T2 res; wten F w] g_dyn_reduce_pinn = Some (T0 (dyn_term F w res)) /\
+  g_dyn_reduce_spinn = g_dyn_reduce_pinn /\ g_dyn_params_last = true.
+Proof. split; [exact (mse_expected_sem F w res)|split; reflexivity]. Qed.
+Lemma regenerated_totals_ok : g_totals = true.
+Proof. reflexivity. Qed.
+Theorem C03_regenerated_dynamic_term (F : fld) (w : weight F) (res : list (list F)) :
+  tsem F [T2 res; wten F w] g_dyn_reduce_pinn =
+  Some (T0 (sumK (map (fun r => sumK (map (fun p => wat F w (fst p) * (snd p * snd p))%K (enumerate r))) res) / of_nat (length res))%K).
+Proof. rewrite (proj1 (regenerated_dyn_reduce_ok F w res)). unfold dyn_term. rewrite (mse_term_def F w res). reflexivity. Qed.
+
+Print Assumptions regenerated_dyn_reduce_ok.
+Print Assumptions regenerated_totals_ok.
+Print Assumptions C03_regenerated_dynamic_term.
 Print Assumptions C03_total_is_sum_of_terms.
 Print Assumptions C03_dynamic_term.
 Print Assumptions C03_linear_in_scalar_weight.
